@@ -20,9 +20,12 @@ _real_time = time.time
 class VirtualClock:
     def __init__(self, start=1600000000.0):
         self.now = float(start)
+        self.tick = 0.0      # seconds the clock advances after every reading (0: frozen)
 
     def time(self):
-        return self.now
+        t = self.now
+        self.now += self.tick
+        return t
 
     def advance(self, seconds):
         self.now += seconds
@@ -53,6 +56,7 @@ def reset(seed=0, clock_start=None):
     """Reset all pinned sources so that a twin execution sees the same values."""
     random.seed(seed)
     _uuid_counter[0] = 0
+    CLOCK.tick = 0.0
     if clock_start is not None:
         CLOCK.now = float(clock_start)
 
